@@ -1527,7 +1527,13 @@ class FuncExecute(ValueFunc):
             output_file = args.getString("output_file").value
 
         if echo:
-            print(" ".join([program] + arglist))
+            try:
+                print(" ".join([program] + arglist))
+            except Exception:
+                # (the program has closed the standard output)
+                raise CklRuntimeError(
+                    ValueString("ERROR"), "Cannot write to output", pos
+                )
 
         try:
             if output_file is not None:
